@@ -9,13 +9,14 @@ implementation's unmarked output."""
 import json
 from fractions import Fraction
 from math import gcd
+import vlib
 from vlib import sx, Sym, parse_sx, try_parse, cps
 import fmtlib as F
 
 TRUSTED_BASE = [
     'Coq 8.16.1 kernel + vm_compute',
     'extraction ExtrOcamlBasic -> OCaml 4.13.1, modelrun/driver.ml; cross-checked against vm_compute on a sample',
-    'harness/src/bin/h_fmt.rs and /repo/core/src/verif_hooks/fmt.rs',
+    'harness/src/bin/h_fmt.rs and %s/core/src/verif_hooks/fmt.rs' % vlib.REPO,
     'hand-written models coq/Fmt/Format.v, Root.v, Flag.v tied to core/src/num/{bigrat,biguint,unit,real}.rs only by this differential run',
     'big integers at value level (Coq N, Q); limb arithmetic is C01',
     'gen/fmtlib.py reference truncation / integer roots (Python int, Fraction)',
@@ -26,7 +27,8 @@ ASSUMPTIONS = [
     'n sf of a non-integer: position of the cut is checked by correspondence, the theorem is C03_marker (flag soundness)',
 ]
 
-KNOWN = 'add_approx_zero'
+KNOWN = 'add_approx_zero'          # fixed by fend 198ba44: a reappearance is a VIOLATION
+KNOWN_SCALE = 'scale_pi_product'    # open: unit scale built from two multiples of pi loses the inexact flag
 
 
 def iroot(x, n):
@@ -364,8 +366,6 @@ def check_flags(c):
                 c.violation('marker-wrong', {'kind': 'impl-vs-spec', 'op': 'eval', 'expr': t + ' to fraction', 'impl': got,
                                              'uses_approximate_operand': ua, 'in_known_class': in_known_class})
                 continue
-        if in_known_class:
-            continue        # the mirror is deliberately bug-compatible there: not consulted (DESIGN 5)
         if not (model_ok and F.q_of(pm[1]) == v and (pm[2] == 1) == (not marked)):
             c.violation('flag-model-differs', {'kind': 'impl-vs-model', 'op': 'flag', 'expr': t, 'impl': got, 'model': model[i]}, no_input=True)
     # L1: Value::add directly
@@ -394,6 +394,33 @@ def check_flags(c):
         else:
             c.violation('add-rat-failed', {'kind': 'impl-crash', 'op': 'add-rat', 'line': line, 'impl': o})
     c.sample({'op': 'eval', 'expr': fexpr_text(exprs[0]) + ' to fraction', 'impl': F.res_text(impl[0])})
+    # regression corpus of the repaired defect (fend 198ba44): these must stay marked
+    wit = ['1 + (sqrt 2 - sqrt 2)', '1 + approx. 0', '0 + approx. 0', '1 - (approx. 2 - approx. 2)', '1 - approx. 0',
+           '(1 + (sqrt 2 - sqrt 2)) to fraction', '5 + (sqrt 3 - sqrt 3) + 1', '1 km + (sqrt 2 - sqrt 2) s', '1 km + (approx. 0) m',
+           '2 (1 + approx. 0)', '(1 + approx. 0)^2 to fraction', '(1 + approx. 0) / 3 to fraction']
+    wo = c.impl('fmt', [sx([Sym('eval'), 0, cps(t)]) for t in wit])
+    for t, o in zip(wit, wo):
+        c.note_case('w:' + t, True, 'flag:regression-witness')
+        got = F.res_text(o)
+        if not (got[0] == 'ok' and got[1].startswith('approx. ')):
+            c.violation('marker-dropped-by-approximate-zero', {'kind': 'impl-vs-spec', 'op': 'eval', 'expr': t, 'impl': got,
+                                                              'note': 'regression of the defect fixed by fend 198ba44'})
+    # unit scales that are products of two multiples of pi: the converted value is an
+    # irrational multiple of pi computed with an approximated pi, so it must be marked
+    sc = []
+    for _ in range(12 if c.tier == 'quick' else 200):
+        a, b2 = r.randrange(1, 400), r.randrange(1, 400)
+        sc.append('(%d degree * %d degree) to (sextant radian) to fraction' % (a, b2))
+    sc += ['(4 degree * 157 degree) to (sextant radian) to fraction', '(1 degree * 1 arcminute) to (sextant radian) to exact']
+    so = c.impl('fmt', [sx([Sym('eval'), 0, cps(t)]) for t in sc])
+    for t, o in zip(sc, so):
+        c.note_case('s:' + t, True, 'flag:pi-product-scale')
+        got = F.res_text(o)
+        if got[0] != 'ok':
+            c.violation('scale-conversion-failed', {'kind': 'impl-vs-spec', 'op': 'eval', 'expr': t, 'impl': got})
+        elif not got[1].startswith('approx. '):
+            if not c.known_finding(KNOWN_SCALE):
+                c.violation('marker-dropped-by-pi-product-scale', {'kind': 'impl-vs-spec', 'op': 'eval', 'expr': t, 'impl': got})
 
 
 # ---------------------------------------------------------------------------
@@ -463,8 +490,8 @@ def check(c):
     c.rule = ('L1 fmt-rat with n dp / n sf, n in 0..60 (quick: 11 values, thorough: all), small p/q exhaustive in q, cut-boundary values, random to 10^45, both flags; '
               'L1 iroot/pow-rat on perfect and near-perfect k-th powers, k <= 12, plus error cases; flag expressions over exact / approx. leaves with + - * / neg '
               '(L2 `E to fraction` and L1 Value::add); L2 dp/sf and roots. non-trivial: non-integer or multi-digit value / fractional exponent / approximate operand')
-    ok = c.proof(['C03'], extra_targets=['Extract/XFmt.vo'])
-    if c.tier == 'thorough' and ok:
+    c.proof(['C03'], extra_targets=['Extract/XFmt.vo'])
+    if c.tier == 'thorough':
         c.thorough_proof(['C03'])
     check_trunc(c)
     check_iroot(c)
